@@ -78,6 +78,11 @@ def cases(tier: str, seed: int) -> list[dict]:
                     ev.append({"a": "SelectPoints", "ps": ps, "policy": policy, "dim": pick(["point", "station"])})
                 for policy in ("error", "drop", "fill"):
                     ev.append({"a": "ExtractDF", "ps": ps, "policy": policy, "dim": pick(["point", "obs"])})
+            # a table in which one row has no position (NaN, NaN): an ordinary miss, with rows after it
+            from ..worlds import NANQ
+            table = some[:1] + [[NANQ, NANQ]] + some + [GW.far_point(w)] + some[:1]
+            for policy in ("error", "drop", "fill"):
+                ev.append({"a": "ExtractDF", "ps": table, "policy": policy, "dim": pick(["point", "obs"])})
         # the dataset is then modified in place and everything is asked again (same dataset object, same accessor)
         k = len(ev)
         again = [dict(e) for e in ev if rng.random() < 0.5][: (6 if tier == "quick" else 20)]
